@@ -11,6 +11,9 @@ use std::time::{Duration, Instant};
 struct It(usize);
 impl SkimItem for It {
     fn text(&self) -> Cow<str> {
+        Cow::Borrowed("it") // the same listed text for every item; `output()` tells them apart
+    }
+    fn output(&self) -> Cow<str> {
         Cow::Owned(format!("it{}", self.0))
     }
 }
